@@ -104,20 +104,27 @@ theorem commentDirective_noPrefix (st : St) (offs : Nat) (lit : List UInt8) (t :
 
 /-- the source span of a comment as the domain predicate sees it -/
 theorem commentSpanOK_spec {p e : Nat} (h : commentSpanOK src p e = true) :
-    (∀ b ∈ slice src p e, b ≠ 0x0D) ∧ linePrefix.isPrefixOf ((slice src p e).drop 2) = false ∧
+    ((byteAt src p = 0x23 ∨ byteAt src (p + 1) = 0x2A) → ∀ b ∈ slice src p e, b ≠ 0x0D) ∧
+      linePrefix.isPrefixOf ((slice src p e).drop 2) = false ∧
       ¬ (byteAt src p = 0x23 ∧ (byteAt src (p + 1) = 0x2F ∨ byteAt src (p + 1) = 0x2A)) := by
   unfold commentSpanOK at h
-  simp only [Bool.and_eq_true, Bool.not_eq_true', Bool.and_eq_false_iff, Bool.or_eq_false_iff, beq_eq_false_iff_ne,
-    List.contains_eq_mem, decide_eq_false_iff_not] at h
+  simp only [Bool.and_eq_true, Bool.not_eq_true'] at h
   obtain ⟨⟨h1, h2⟩, h3⟩ := h
   refine ⟨?_, h2, ?_⟩
-  · intro b hb heq; subst heq; exact h1 hb
+  · intro hc b hb heq
+    subst heq
+    have hcb : (byteAt src p == 0x23 || byteAt src (p + 1) == 0x2A) = true := by
+      rcases hc with hc | hc <;> simp [hc]
+    rw [hcb, Bool.true_and] at h1
+    have : (List.take (e - p) (List.drop p src.toList)).contains 0x0D = true := by
+      simpa [slice] using hb
+    rw [this] at h1
+    cases h1
   · intro ⟨ha, hb⟩
-    rcases h3 with h | h
-    · exact h (by simpa using ha)
-    · rcases hb with hb | hb
-      · exact h.1 (by simpa using hb)
-      · exact h.2 (by simpa using hb)
+    have : (byteAt src p == 0x23 && (byteAt src (p + 1) == 0x2F || byteAt src (p + 1) == 0x2A)) = true := by
+      rcases hb with hb | hb <;> simp [ha, hb]
+    rw [this] at h3
+    cases h3
 
 theorem slice_mem_byte {a b k : Nat} (h1 : a ≤ k) (h2 : k < b) (h3 : b ≤ src.size) :
     src[k]'(by omega) ∈ slice src a b := by
@@ -215,49 +222,94 @@ theorem scanSharpCommentTpl_eq (F : Nat) (st : St) (h1 : 1 ≤ st.off) (hs : st.
   simp only [h0, if_false, hs, hstar, reduceCtorEq, or_self]
   rw [← lineCommentLoop_sharp (src := src) F st 0]
 
-/-- `//…` and `/*…*/`: the two scanners agree -/
-theorem commentXG_eq_tpl (F : Nat) (st : St) (hi : Inv src st) (hf : src.size - st.off < F) (h1 : 1 ≤ st.off)
-    (hc : st.ch = 0x2F ∨ st.ch = 0x2A)
-    (hok : commentSpanOK src (st.off - 1) (commentLoops .xgo src F st).st.off = true) :
-    (scanCommentXG .xgo src F st).st = (scanCommentTpl src F st).st ∧
-      (scanCommentXG .xgo src F st).lit = (scanCommentTpl src F st).lit := by
-  obtain ⟨hcr, hpre, _⟩ := commentSpanOK_spec hok
-  obtain ⟨ha, _, _⟩ := commentLoops_ok F st hi hf
-  have hbytes := noCR_bytes (src := src) ha.inv.off_le_size hcr
-  have hnum := commentLoops_noCR F st hi hf (fun k h1 h2 => hbytes k (by omega) h2)
-  have hx := scanCommentXG_plain F st hi hf h1 hnum hpre
-  rw [scanCommentTpl_eq F st h1 hc, hnum]
-  have hle : st.off - 1 ≤ (commentLoops .xgo src F st).st.off := by have := ha.off_le; omega
-  rw [sliceP_eq _ hle ha.inv.off_le_size]
-  exact ⟨hx.1, by simpa using hx.2⟩
+/-! ### counting carriage returns exactly -/
 
-/-- `#…`: the two scanners agree -/
-theorem commentXG_eq_sharp (F : Nat) (st : St) (hi : Inv src st) (hf : src.size - st.off < F) (h1 : 1 ≤ st.off)
-    (hb : byteAt src (st.off - 1) = 0x23)
-    (hok : commentSpanOK src (st.off - 1) (commentLoops .xgo src F st).st.off = true) :
-    (scanCommentXG .xgo src F st).st = (scanSharpCommentTpl src F st).st ∧
-      (scanCommentXG .xgo src F st).lit = (scanSharpCommentTpl src F st).lit := by
-  obtain ⟨hcr, hpre, hq⟩ := commentSpanOK_spec hok
-  obtain ⟨ha, _, _⟩ := commentLoops_ok F st hi hf
-  have hbytes := noCR_bytes (src := src) ha.inv.off_le_size hcr
-  have e : st.off - 1 + 1 = st.off := by omega
-  have hns : st.ch ≠ 0x2F := by
-    intro h
-    have := (hi.ascii (by omega)).1
-    apply hq
-    rw [e]
-    exact ⟨hb, Or.inl (this.trans h)⟩
-  have hnstar : st.ch ≠ 0x2A := by
-    intro h
-    have := (hi.ascii (by omega)).1
-    apply hq
-    rw [e]
-    exact ⟨hb, Or.inr (this.trans h)⟩
-  have hnum := commentLoops_noCR F st hi hf (fun k h1 h2 => hbytes k (by omega) h2)
-  have hx := scanCommentXG_plain F st hi hf h1 hnum hpre
-  rw [scanSharpCommentTpl_eq F st h1 hns hnstar]
-  have hle : st.off - 1 ≤ (commentLoops .xgo src F st).st.off := by have := ha.off_le; omega
-  rw [sliceP_eq _ hle ha.inv.off_le_size]
-  exact ⟨hx.1, hx.2⟩
+/-- the continuation bytes of a multi-byte rune are ≥ 0x80 -/
+theorem decodeRune_cont (i : Nat) : ∀ k, 1 ≤ k → k < (decodeRune src i).2 → 0x80 ≤ byteAt src (i + k) := by
+  intro k hk1 hk2
+  generalize hr : decodeRune src i = r at hk2
+  unfold decodeRune at hr
+  simp only [] at hr
+  repeat' split at hr
+  all_goals (subst hr; simp only [] at hk2)
+  all_goals first
+    | omega
+    | (have : k = 1 ∨ k = 2 ∨ k = 3 := by omega
+       rcases this with rfl | rfl | rfl <;> omega)
+
+/-- bytes of the character under the cursor: no CR unless the character is CR -/
+theorem char_bytes_noCR {st : St} (hi : Inv src st) (hne : st.ch ≠ eofCh) (hcr : st.ch ≠ 0x0D) :
+    ∀ k, st.off ≤ k → k < st.rdOff → byteAt src k ≠ 0x0D := by
+  intro k h1 h2
+  have hw := hi.width hne
+  have hdec := hi.decoded
+  have hsz : st.off < src.size := by have := hi.adv hne; have := hi.rd_le; omega
+  by_cases hb : byteAt src st.off < 0x80
+  · simp only [hb, if_true] at hw
+    have hk : k = st.off := by omega
+    subst hk
+    unfold runeAt at hdec
+    simp only [hsz, if_true, hb] at hdec
+    rw [← hdec]; exact hcr
+  · simp only [hb, if_false] at hw
+    by_cases hk : k = st.off
+    · subst hk; omega
+    · have := decodeRune_cont (src := src) st.off (k - st.off) (by omega) (by omega)
+      have e : st.off + (k - st.off) = k := by omega
+      rw [e] at this
+      omega
+
+theorem mem_slice {a b : Nat} {x : UInt8} (hb : b ≤ src.size) (h : x ∈ slice src a b) :
+    ∃ k, a ≤ k ∧ k < b ∧ byteAt src k = x.toNat := by
+  obtain ⟨i, hi, hx⟩ := List.mem_iff_getElem.mp h
+  by_cases hab : a ≤ b
+  · rw [slice_length hab hb] at hi
+    have := slice_getElem? (src := src) (a := a) (b := b) (k := i) (by omega) hb
+    rw [List.getElem?_eq_getElem (by rw [slice_length hab hb]; exact hi)] at this
+    simp only [Option.some.injEq] at this
+    refine ⟨a + i, by omega, by omega, ?_⟩
+    rw [byteAt_eq (by omega), ← this, hx]
+  · exfalso
+    unfold slice at hi
+    simp only [List.length_take, List.length_drop, Array.length_toList] at hi
+    omega
+
+theorem count_zero_of_bytes {a b : Nat} (hb : b ≤ src.size) (h : ∀ k, a ≤ k → k < b → byteAt src k ≠ 0x0D) :
+    (slice src a b).count 0x0D = 0 := by
+  apply List.count_eq_zero.mpr
+  intro hm
+  obtain ⟨k, h1, h2, h3⟩ := mem_slice hb hm
+  exact h k h1 h2 (by rw [h3]; rfl)
+
+/-- the `//` loop counts exactly the CR bytes it passes -/
+theorem lineCommentLoop_count_eq : ∀ (fuel : Nat) (st : St) (n : Nat), Inv src st → src.size - st.off < fuel →
+    (lineCommentLoop src fuel st n).2 = n + (slice src st.off (lineCommentLoop src fuel st n).1.off).count 0x0D := by
+  intro fuel
+  induction fuel with
+  | zero => intro st _ _ h; omega
+  | succ f ih =>
+    intro st n hi hf
+    simp only [lineCommentLoop]
+    split
+    · rename_i hc
+      have hoffeq := next_off_eq hi
+      have hlt := next_off_lt hi hc.2
+      have hadv := lineCommentLoop_adv (src := src) f (next src st) (if st.ch = 0x0D then n + 1 else n)
+        (next_inv hi) (loop_step hi hc.2 hf)
+      have := ih (next src st) (if st.ch = 0x0D then n + 1 else n) (next_inv hi) (loop_step hi hc.2 hf)
+      rw [this, ← slice_append (src := src) (a := st.off) (b := (next src st).off) (Nat.le_of_lt hlt) hadv.off_le,
+        List.count_append]
+      by_cases hcr : st.ch = 0x0D
+      · have e1 := next_off_ascii hi (show st.ch < 0x80 by omega)
+        have hb := (hi.ascii (show st.ch < 0x80 by omega)).1
+        have hsz : st.off < src.size := by have := hi.adv hc.2; have := hi.rd_le; omega
+        rw [e1, slice_one_byte hsz (hb.trans hcr)]
+        simp only [hcr, if_true]
+        have : List.count (0x0D : UInt8) [UInt8.ofNat 0x0D] = 1 := by decide
+        rw [this]; omega
+      · have hz := count_zero_of_bytes (src := src) (a := st.off) (b := (next src st).off) (next_inv hi).off_le_size
+          (by rw [hoffeq]; exact char_bytes_noCR hi hc.2 hcr)
+        simp only [hcr, if_false, hz]; omega
+    · simp only [slice_self]; simp
 
 end GopModel.Scan
